@@ -227,6 +227,35 @@ func (rc *recipeCtx) recipe(v ssa.Value, d int) string {
 	case *ssa.Alloc:
 		return "new(" + typeStr(derefT(x.Type())) + ")"
 	case *ssa.Phi:
+		// get-or-create: v := m[k]; if v == nil (or !ok) { v = new; m[k] = v } — afterwards v is m[k]
+		if len(x.Edges) == 2 {
+			for i := 0; i < 2; i++ {
+				var lk *ssa.Lookup
+				switch e := x.Edges[i].(type) {
+				case *ssa.Lookup:
+					lk = e
+				case *ssa.Extract:
+					if l, ok := e.Tuple.(*ssa.Lookup); ok && e.Index == 0 {
+						lk = l
+					}
+				}
+				if lk == nil {
+					continue
+				}
+				other := x.Edges[1-i]
+				refs := other.Referrers()
+				if refs == nil {
+					continue
+				}
+				want := "Lookup(" + rc.recipe(lk.X, d+1) + "," + rc.recipe(lk.Index, d+1) + ")"
+				for _, r := range *refs {
+					if mu, ok := r.(*ssa.MapUpdate); ok && mu.Value == other && mu.Block() == x.Block().Preds[1-i] &&
+						"Lookup("+rc.recipe(mu.Map, d+1)+","+rc.recipe(mu.Key, d+1)+")" == want {
+						return want
+					}
+				}
+			}
+		}
 		rc.opaque = true
 		return "?phi"
 	}
@@ -829,7 +858,50 @@ func ruleOpCodec(c *Ctx) {
 			_, isParam := root.(*ssa.Parameter)
 			return isParam
 		})
-		c.check(edgesDominate(f, edges, e.site.Block()), fnName(f), "keys containing the separator are rejected before a "+nm+" record is logged", c.P.ipos(e.site), "",
+		sepEdges := func(g *ssa.Function) []succEdge {
+			return boolEdges(g, false, func(x ssa.Value) bool {
+				call, ok := resolve1(x).(*ssa.Call)
+				if !ok || call.Call.StaticCallee() == nil || call.Call.StaticCallee().String() != "strings.Contains" {
+					return false
+				}
+				sep, ok := constString(call.Call.Args[1])
+				if !ok || sep != "|" {
+					return false
+				}
+				root, _ := splitPath(call.Call.Args[0])
+				_, isParam := root.(*ssa.Parameter)
+				return isParam
+			})
+		}
+		// the rejection may sit in a helper between the API and the put gate: then every call of
+		// that helper which leads on to the gate has to be behind the helper's own rejection
+		gate, _, _ := findPutGate(c)
+		var guardedDown func(g *ssa.Function, site ssa.CallInstruction, depth int) bool
+		guardedDown = func(g *ssa.Function, site ssa.CallInstruction, depth int) bool {
+			if edgesDominate(g, sepEdges(g), site.Block()) {
+				return true
+			}
+			h := site.Common().StaticCallee()
+			if depth > 3 || h == nil || h == gate || !c.P.inModule(h) || len(h.Blocks) == 0 {
+				return false
+			}
+			found, all := false, true
+			calls(h, func(ci ssa.CallInstruction) {
+				cal := ci.Common().StaticCallee()
+				if cal == nil || !c.P.inModule(cal) {
+					return
+				}
+				if cal != gate && !c.P.Cone(nil, cal)[gate] {
+					return
+				}
+				found = true
+				if !guardedDown(h, ci, depth+1) {
+					all = false
+				}
+			})
+			return found && all
+		}
+		c.check(edgesDominate(f, edges, e.site.Block()) || guardedDown(f, e.site, 0), fnName(f), "keys containing the separator are rejected before a "+nm+" record is logged", c.P.ipos(e.site), "",
 			"the API logs a record whose key is later split at the separator without rejecting keys that contain it")
 	}
 	c.minInstances("key-creating APIs with separator check", k, 3)
